@@ -94,8 +94,42 @@ def run_shard(spec, acc):
         use_none = rnd.random() < 0.1
         case = {"kind": "vis", "mods": mods, "imps": imps, "aliases": None if use_none else aliases, "extra": extra}
         call(ev, mods, None if use_none else aliases, extra, acc, case)
+        if aliases and not use_none and rnd.random() < 0.5:
+            # the same architecture object again: same aliased modules, other alias strings
+            again = {k: "Z" + v[::-1] for k, v in aliases.items()}
+            call(ev, mods, again, extra, acc, dict(case, aliases=again, note="second call on the same architecture"))
+            acc.count("repeated_calls_same_architecture")
+        if rnd.random() < 0.3:
+            variant(rnd, mods, imps, acc)
         if i % 173 == 0:
             acc.sample(case)
+
+
+def variant(rnd, mods, imps, acc):
+    """Architectures whose node set differs from the module list they were built from: level-limited
+    graphs (deeper names do not exist) and graphs built from leaf modules only (parents are added by the
+    graph itself)."""
+    from ..monitors import graph_state
+
+    if rnd.random() < 0.5:
+        k = rnd.choice([1, 2])
+        ev = build(mods, imps, level_limit=k, check=False)
+        kind = f"level_limit={k}"
+    else:
+        leaves = [m for m in mods if not any(is_ancestor(m, x) for x in mods)]
+        ev = build(leaves, [(a, b) for a, b in imps if a in leaves and b in leaves], check=False)
+        kind = "built from leaf modules only"
+    nodes = sorted(graph_state(ev)[0])
+    absent = [m for m in mods if m not in nodes]
+    aliases = {rnd.choice(nodes): "N0"}
+    parents = [n for n in nodes if any(is_ancestor(n, x) for x in nodes)]
+    if parents:
+        aliases[rnd.choice(parents)] = "P1"
+    if absent and rnd.random() < 0.5:
+        aliases[rnd.choice(absent)] = "Gone"
+    case = {"kind": "vis-variant", "mods": mods, "imps": imps, "aliases": aliases, "extra": {}, "variant": kind}
+    call(ev, nodes, aliases, {}, acc, case)
+    acc.count("variant_architectures")
 
 
 def replay(case, acc):
@@ -107,7 +141,7 @@ def floors(acc, tier):
     why = []
     if acc.counters["draw_backend_calls"] == 0:
         why.append("the drawing backend was never intercepted")
-    for c, n in (("c17_judged", 1000), ("c17_unknown_alias_cases", 20), ("c17_spacing_cases", 100), ("c17_prefix_sibling_alias_cases", 50), ("c17_passthrough_kwargs", 100)):
+    for c, n in (("c17_judged", 1000), ("c17_unknown_alias_cases", 20), ("c17_spacing_cases", 100), ("c17_prefix_sibling_alias_cases", 50), ("c17_passthrough_kwargs", 100), ("repeated_calls_same_architecture", 50), ("variant_architectures", 50)):
         if acc.counters[c] < n:
             why.append(f"{c}: only {acc.counters[c]}")
     acc.flags["exhaustive"] = bool(acc.flags.get("exhaustive_alias_subsets"))
